@@ -14,6 +14,7 @@ ids probed by the per-key readers.  Fields of an op are separated by `:`.
   addlistx:k:values  updx:pairs  extx:pairs  newx   the argument iterable yields these items and then
            raises (`XBoom`): materialised first / taken over pair by pair / no object constructed
   updmx:pairs   a mapping argument of `update` that raises after delivering these items (`XBoom`)
+  nop           the caller creates, advances or drains iterators (`N`): nothing changes
   rej           a call that raises on its first look at its argument (`XReject`): nothing changes
   fk:keys:v     `s = cls.fromkeys(keys, v)`
   new:E:F  add:k:v  addlist:k:values  set:k:v  del:k  upd:E:F  ext:E:F  sd:k:v
@@ -85,6 +86,7 @@ def dump (nk : Nat) (st3 : HState3 Nat Nat) : String :=
     s!"VIC{"".intercalate (ks.map fun k => "".intercalate ((List.range 5).map fun v =>
         showE (fun b => if b then "1" else "0") (s.viewItemsContains k v)))}",
     s!"VVC{"".intercalate ((List.range 5).map fun v => showE (fun b => if b then "1" else "0") (s.viewValuesContains v))}",
+    s!"RP{s.reprText "C" toString toString}",
     s!"T{showPairs st.t.itemsM}"]
 
 def parsePairs? (s : String) : Option (List (Nat × Nat)) :=
@@ -185,6 +187,7 @@ def query? (st : HState Nat Nat) (tok : String) : Option String :=
     | some (.fresh l) => some (showEN (.ok (st.s.eqOMD (OMD.fromPairs l))) (.ok (st.s.neOMD (OMD.fromPairs l))))
     | some (.mapping m) => some (showEN (st.s.eqMapping m) (st.s.neMapping m))
     | _ => none
+  | ["nop"] => some "N"             -- the caller makes / advances / drains iterators: reads only
   | ["newx"] => some "XBoom"        -- the constructor raised: no new object, `s` is still the old one
   | ["sorted", fn, rev] => do
       let le ← pairLe fn
@@ -243,6 +246,7 @@ def ownTok (st st' : HState Nat Nat) (o : Own Nat Nat) (tok : String) : Own Nat 
     | ["sv", _, _] => some o
     | ["newx"] => some o
     | ["rej"] => some o
+    | ["nop"] => some o
     | ["addlistx", _, _] => some o
     | _ => none
   match r with
